@@ -297,3 +297,77 @@ def rule_G5(ctx):
     if n < 30:
         raise AnalysisError(f'only {n} (class, operation) pairs examined (floor 30)')
     return r
+
+
+def rule_MIRROR(ctx):
+    """One mirror for slices: every store-level lsb0 variant that addresses the underlying bitarray with a slice takes that
+    slice from offset_slice_indices_lsb0 (the only place that knows how a stepped window maps: the mirrored slice starts at
+    the mirror of the LAST selected element).  A hand-made slice(len - stop, len - start, step) is right for step 1 only.
+    Integer positions are mirrored as -i - 1."""
+    from .ingest import _lin
+    m = ctx.m
+    r = RuleResult('MIRROR', 'store-level lsb0 variants address the bitarray only through offset_slice_indices_lsb0 (slices) or -i - 1 (indices)')
+    bs = m.classes.get('BitStore')
+    if bs is None or 'bitstore:offset_slice_indices_lsb0' not in m.funcs:
+        raise AnalysisError('anchor vanished: BitStore / offset_slice_indices_lsb0')
+    n = 0
+    for name, f in sorted(bs.methods.items()):
+        if not name.endswith('_lsb0'):
+            continue
+        mirrored = set()       # names holding a slice returned by the mirror function
+        for x in own_walk(f.node):
+            if isinstance(x, ast.Assign) and len(x.targets) == 1 and isinstance(x.targets[0], ast.Name) and isinstance(x.value, ast.Call) \
+                    and isinstance(x.value.func, ast.Name) and x.value.func.id == 'offset_slice_indices_lsb0':
+                mirrored.add(x.targets[0].id)
+        # a name is mirrored only if every assignment to it is the mirror call (parameters re-bound unconditionally count)
+        for x in own_walk(f.node):
+            if isinstance(x, ast.Assign):
+                for t in x.targets:
+                    if isinstance(t, ast.Name) and t.id in mirrored and not (isinstance(x.value, ast.Call) and isinstance(x.value.func, ast.Name)
+                                                                             and x.value.func.id == 'offset_slice_indices_lsb0'):
+                        mirrored.discard(t.id)
+        params = set(f.params())
+        rebinds = {}
+        for st in G.body_wo_doc(f):
+            if isinstance(st, ast.Assign) and len(st.targets) == 1 and isinstance(st.targets[0], ast.Name):
+                rebinds.setdefault(st.targets[0].id, st.lineno)
+
+        def ok_index(e, line):
+            if isinstance(e, ast.Name):
+                if e.id in mirrored and (e.id not in params or rebinds.get(e.id, 10 ** 9) < line):
+                    return 'mirrored slice'
+                return None
+            if isinstance(e, ast.Slice):
+                for b in (e.lower, e.upper, e.step):
+                    if b is None:
+                        continue
+                    if not (isinstance(b, ast.Attribute) and isinstance(b.value, ast.Name) and b.value.id in mirrored):
+                        return None
+                return 'bounds of the mirrored slice'
+            if isinstance(e, ast.Call) and isinstance(e.func, ast.Name) and e.func.id == 'slice':
+                return None
+            form = _lin(e)
+            names = [k for k in form if k != 1 and k in params]
+            if len(names) == 1 and form == {names[0]: -1, 1: -1}:       # (len - i - 1 would refuse the negative indices -i - 1 accepts)
+                return 'index mirror -i - 1'
+            return None
+        for x in own_walk(f.node):
+            idx = None
+            if isinstance(x, ast.Subscript) and ast.unparse(x.value) == 'self._bitarray':
+                idx = x.slice
+            elif isinstance(x, ast.Call) and isinstance(x.func, ast.Attribute) and ast.unparse(x.func.value) == 'self._bitarray' and \
+                    x.func.attr in ('__getitem__', '__setitem__', '__delitem__', 'invert') and x.args:
+                idx = x.args[0]
+            if idx is None:
+                continue
+            n += 1
+            how = ok_index(idx, x.lineno)
+            if how:
+                r.ok(f'{f.key}:{norm(x)}', {'instance': f.key, 'access': norm(x)[:80], 'index': how})
+            else:
+                r.fail(f.key, x, f'{name} addresses the bitarray with {ast.unparse(idx)!r}, which is neither a slice returned by '
+                       'offset_slice_indices_lsb0 nor the index mirror -i - 1: a hand-made mirrored slice is wrong for steps other than 1 '
+                       '(the mirrored window must start at the mirror of the last selected element)', loc=f.loc(x))
+    if n < 6:
+        raise AnalysisError(f'only {n} bitarray accesses found in the store-level lsb0 variants (floor 6)')
+    return r
